@@ -8,7 +8,7 @@ func init() {
 				"object round trip: all five fields arbitrary int64",
 				"expansion: horizontal zoom finer than the vertical by 0..6 levels (2^d IDs), vertical finer than the horizontal by 0..3 (quick) / 0..4 (thorough) levels (4^d IDs), at bases 0,1,10,24,25,33; indices symbolic; region equality through a symbolic probe cell",
 			},
-			Outside: []string{"lists longer than 3", "expansion across more than the stated zoom difference (output size 4^d / 2^d)"},
+			Outside:     []string{"lists longer than 3", "expansion across more than the stated zoom difference (output size 4^d / 2^d)"},
 			Assumptions: []string{"VerifC10StrModel is a self-check of the encoder's character-level string model (len, index, slice, range, ordering, Count/SplitN/FieldsFunc), not of the library", "token model of strings: an arbitrary string is a sequence of '/'-free fields with solver-chosen attributes (DESIGN §2.3)"},
 		},
 		insts: func(tier string) []*Instance {
